@@ -7,6 +7,8 @@ func init() {
 			la := NewLockAnalysis(w)
 			r.Rule("R10.1", 5, "tracking: setInstance's lifetime switch sends singletons to setSingleton (table + provider list) and appends scoped/transient disposables to the scope's list; a Disposable instance is tracked or closed on the spot on every path")
 			r.Rule("R10.1s", 2, "each owner keeps exactly one disposal list")
+			r.Rule("R10.7", 10, "every output the analysis registers is extracted and stored at run time: the result-object walkers of the analyzer and of the processor skip the same fields (an output that is constructed but never reaches setInstance is never closed)")
+			r.Try(func() { ruleFieldFilters(w, r, "R10.7") })
 			r.Rule("R10.2", 4, "drain: complete traversal of a snapshot of the owner's list, on every path past the gate")
 			r.Rule("R10.3", 2, "once: compare-and-swap gate whose losing edge returns nil and which dominates all effects")
 			r.Rule("R10.3s", 4, "once: a table's snapshot and its reset happen inside one critical section")
@@ -34,6 +36,8 @@ func init() {
 		commonAssumptions, func(w *World, r *Report) {
 			la := NewLockAnalysis(w)
 			r.Rule("R11.1", 2, "disposal loops traverse the list in reverse")
+			r.Rule("R11.10", 10, "creation order is dependency order only for the dependencies the analysis sees: the field walkers of the analyzer and of the invoker skip the same fields")
+			r.Try(func() { ruleFieldFilters(w, r, "R11.10") })
 			r.Rule("R11.2", 3, "owner disposal lists are appended to at the end or reset, never reordered")
 			r.Rule("R11.2s", 2, "each owner keeps exactly one disposal list")
 			r.Rule("R11.3", 3, "children (resp. scopes and the root scope) are closed before the owner's own instances")
@@ -99,6 +103,8 @@ func init() {
 			r.Try(func() { ruleWatcher(w, r, "R13.4") })
 			r.Rule("R13.5", 5, "setInstance is the last guard for resolutions in flight when Close ran: an instance that arrives at a closed scope is disposed (or refused) and ErrScopeDisposed is returned")
 			r.Try(func() { ruleTracking(w, r, "R13.5", "", "") })
+			r.Rule("R13.6", 2, "every success exit of setInstance's Scoped and Transient paths has found the scope open: an instance of any kind that arrives at a closed scope is refused with ErrScopeDisposed")
+			r.Try(func() { ruleSetInstanceRefusesClosed(w, r, "R13.6") })
 		})
 
 	register("C14",
